@@ -89,6 +89,10 @@ func genC09(tier string, r *rng, emit func(string)) {
 			"new:rm:2,3:1;new:rm:3:2;new:rm:5:50;dot:1:0:reuse.2", "new:rm:2,3:1;new:rm:3:2;new:rm:3:50;dot:1:0:incr.2",
 			"new:rm:3,2:1;T:0:1,0;new:rm:3:2;dot:1:0:safe", "new:rm:2,3:1;new:rm:3:2;dot:1:0:safe;lin:matvec:0:1:safe",
 			"new:rm:2,3:1;new:rm:2:2;new:rm:2:50;dot:1:0:reuse.2;dot:1:0:safe",
+			// a destination that is too BIG is refused as well, and left as it was
+			"new:rm:2,3:1;new:rm:2:2;new:rm:5:50;dot:1:0:reuse.2", "new:rm:2,2:1;new:rm:2,2:2;new:rm:3,3:50;lin:matmul:0:1:reuse.2",
+			"new:rm:2,3:1;new:rm:3:2;new:rm:4:50;lin:matvec:0:1:reuse.2", "new:rm:2:1;new:rm:3:2;new:rm:3,3:50;lin:outer:0:1:reuse.2",
+			"new:rm:2,2:1;new:rm:2,2:2;new:rm:3,3:50;lin:matmul:0:1:incr.2", "new:rm:2,2:1;new:rm:2,2:2;new:rm:3:50;lin:matmul:0:1:reuse.2",
 		} {
 			emit(fmt.Sprintf("prog %s %s", dt, c))
 		}
